@@ -141,9 +141,15 @@ pub fn generate(seed: u64, tier: &str, sink: &mut Sink) {
         c /= npn;
         vals.push(np_vals[(c % npn) as usize]);
         clear_env();
-        for (k, v) in VARS.iter().zip(vals.iter()) {
-            if let Some(v) = v {
-                std::env::set_var(k, v);
+        // the order in which the variables entered the environment block must not matter (upper-case spellings
+        // first in every other case: a shell that exports HTTP_PROXY before http_proxy, a sorted block)
+        let mut order: Vec<usize> = (0..VARS.len()).collect();
+        if i % 2 == 1 {
+            order.reverse();
+        }
+        for j in order {
+            if let Some(v) = vals[j] {
+                std::env::set_var(VARS[j], v);
             }
         }
         let settings = attohttpc::ProxySettings::from_env();
@@ -211,7 +217,7 @@ pub fn generate(seed: u64, tier: &str, sink: &mut Sink) {
             probes.iter().map(urlrec).collect::<Vec<_>>().join(";")
         );
         sink.push(Case {
-            tags: vec!["kind=from_env".into(), format!("no_proxy={}", match np { None => "unset", Some("") => "empty", Some("*") => "star", Some(" * ") => "blank-star", _ => "list" }), format!("set={}", vals.iter().filter(|v| v.is_some()).count())],
+            tags: vec!["kind=from_env".into(), format!("no_proxy={}", match np { None => "unset", Some("") => "empty", Some("*") => "star", Some(" * ") => "blank-star", _ => "list" }), format!("set={}", vals.iter().filter(|v| v.is_some()).count()), format!("upper-case-entered-first={}", i % 2 == 1)],
             op,
             impl_line: line,
             oracle: o,
